@@ -593,7 +593,7 @@ def r06_10(ctx: Ctx, rule: str = "R06.10") -> None:
         run, cnt = tup.elts[0].id, tup.elts[1].right
 
         def per_folder_count(e: ast.AST) -> bool:
-            for x in ast.walk(e):
+            for x in list(ast.walk(e)) + [y for nm in ast.walk(e) if isinstance(nm, ast.Name) for v in q.assigned_values(ex, nm.id) for y in ast.walk(v)]:
                 if isinstance(x, ast.Call) and isinstance(x.func, ast.Attribute) and norm(x.func.value) == fv:
                     m = ctx.prog.method(ctx.prog.cls("Folder", "archiveinfo"), x.func.attr)
                     if m is not None and any(isinstance(y, ast.Attribute) and y.attr in ("packed_indices", "coders") for y in walk(m.node)):
@@ -833,10 +833,43 @@ def r06_12(ctx: Ctx, rule: str = "R06.12") -> None:
                 uses += [n for st in lp.body for n in ast.walk(st) if isinstance(n, ast.Name) and n.id == fvar and isinstance(n.ctx, ast.Load)]
         if not uses:
             continue
-        if not any(isinstance(n, ast.Attribute) and n.attr == "files" for n in ast.walk(lp)):
+        # a predicate helper extracted from the guards (`if self._passes_over(folders[i], ...): continue`): a method of Worker that is not among the
+        # functions the rules were written against, whose body answers True for `<param>.files is None` before it looks at the member list
+        wcls = ctx.prog.cls("Worker", "py7zr")
+        from ..inline import known_functions
+
+        def none_guard_helper(call: ast.AST):
+            if not (isinstance(call, ast.Call) and isinstance(call.func, ast.Attribute) and norm(call.func.value) == "self"):
+                return None
+            m = ctx.prog.method(wcls, call.func.attr)
+            if m is None or (known_functions() and m.qname in known_functions()):
+                return None
+            mcfg = cfg_of(m.node)
+            for t in mcfg.nodes:
+                if t.kind == "test":
+                    nt = q.is_none_test(t.ast)
+                    if nt is not None and isinstance(nt[0], ast.Attribute) and nt[0].attr == "files" and isinstance(nt[0].value, ast.Name) and nt[0].value.id in m.params:
+                        be = next((s_ for s_ in t.succ if s_.kind == ("true" if nt[1] else "false")), None)
+                        rets = [n for n in mcfg.reachable_from(be) if n.kind == "stmt" and isinstance(n.ast, ast.Return)] if be is not None else []
+                        first_true = be is not None and any(n.kind == "stmt" and isinstance(n.ast, ast.Return) and isinstance(n.ast.value, ast.Constant) and n.ast.value.value is True
+                                                             for n in be.succ) or (len(rets) >= 1 and isinstance(rets[0].ast.value, ast.Constant) and rets[0].ast.value.value is True)
+                        if first_true:
+                            pi = m.params.index(nt[0].value.id) - 1
+                            return pi
+            return None
+        helper_guarded = any(isinstance(n, ast.Call) and none_guard_helper(n) is not None for n in ast.walk(lp))
+        if not any(isinstance(n, ast.Attribute) and n.attr == "files" for n in ast.walk(lp)) and not helper_guarded:
             continue  # a loop over the folders that never touches a member list (e.g. the running sum of packed-stream counts) dispatches nothing
         n_loops += 1
         guards = []
+        for t in ecfg.nodes:
+            if t.kind != "test" or not any(t.ast is x for x in ast.walk(lp)):
+                continue
+            call = t.ast.operand if isinstance(t.ast, ast.UnaryOp) and isinstance(t.ast.op, ast.Not) else t.ast
+            pi = none_guard_helper(call)
+            if pi is not None:
+                neg = call is not t.ast
+                guards.append((t, next((s_ for s_ in t.succ if s_.kind == ("false" if neg else "true")), None)))
         for t in ecfg.nodes:
             if t.kind != "test" or not any(t.ast is x for x in ast.walk(lp)):
                 continue
